@@ -8,6 +8,11 @@
    (slice stitch (L ts*) <N|(L T:..)> <N|(L T:..)> <oc> I:n)   df_slice(list, lb, ub, oc, n) -> N | frame
    (slice unslice <frame> (L T:..))                      df_unslice(frame, ub)               -> (L (T T:u ts)*)
    (slice roundtrip (L ts*) (L T:..) I:n)                stitch, unslice, stitch again       -> N | (T frame (L (T T:u ts)*) frame)
+   member ::= ts | frame | I:<v> | F:nan | N             a Series, a DataFrame, a scalar
+   blist  ::= N | (L T:<t>*) (dates) | (T I:<us>*) (times of day)
+   (slice stitchm (L member*) <blist> <blist> <oc> I:n)  df_slice(list, lb, ub, oc, n)       -> N | frame
+   barg   ::= (T <bound>) (a single bound) | (L <bound>*) (a python list of bounds)
+   (slice slices <ts> <barg> <barg> <oc>)                df_slice(series, lb, ub, oc)        -> N | (T ts) | (L ts*)
 -/
 import PygModel.Slice
 
@@ -81,6 +86,35 @@ def roundtrip (dfs : List TS) (ub : List Int) (n : Nat) : Res Val := do
     let g ← stitch (u.map (·.2)) Option.none (some ub) (some ['(', ']']) n
     pure (.tuple [frameVal f, unslicedVal u, optFrameVal g])
 
+def memberOf (v : Val) : Option Member :=
+  match v with
+  | .list _ => (TS.ofVal v).map Member.series
+  | .tuple _ => (frameOf v).map Member.frame
+  | .cell (.int x) => some (.scalar (some x))
+  | .cell .nan => some (.scalar Option.none)
+  | .cell .none => some (.scalar Option.none)
+  | _ => Option.none
+
+def blistOf : Val → Option (Option (BKind × List Int))
+  | .cell .none => some Option.none
+  | .list xs => (xs.mapM fun (x : Val) => match x with
+      | Val.cell (Cell.dt t) => some t
+      | _ => Option.none).map fun l => some (BKind.date, l)
+  | .tuple xs => (xs.mapM fun (x : Val) => match x with
+      | Val.cell (Cell.int t) => some t
+      | _ => Option.none).map fun l => some (BKind.time, l)
+  | _ => Option.none
+
+def bargOf : Val → Option BArg
+  | .tuple [b] => (boundOf b).map BArg.one
+  | .list bs => (bs.mapM boundOf).map BArg.list
+  | _ => Option.none
+
+def slicedVal : Sliced (Option Int) → Val
+  | .nothing => .cell .none
+  | .one r => .tuple [TS.toVal r]
+  | .many rs => .list (rs.map TS.toVal)
+
 def handle1 (op : String) (args : List Sexp) : Option String := do
   match op, args with
   | "one", [ts, lb, ub, oc] =>
@@ -96,6 +130,15 @@ def handle1 (op : String) (args : List Sexp) : Option String := do
       let lb ← datesOf (← Val.ofSexp lb); let ub ← datesOf (← Val.ofSexp ub); let oc ← ocOf (← Val.ofSexp oc)
       let n ← match ← Val.ofSexp n with | .cell (.int n) => some n.toNat | _ => Option.none
       pure (reply (stitch dfs lb ub oc n) optFrameVal)
+  | "stitchm", [ms, lb, ub, oc, n] =>
+      let ms ← match ← Val.ofSexp ms with | .list xs => xs.mapM memberOf | _ => Option.none
+      let lb ← blistOf (← Val.ofSexp lb); let ub ← blistOf (← Val.ofSexp ub); let oc ← ocOf (← Val.ofSexp oc)
+      let n ← match ← Val.ofSexp n with | .cell (.int n) => some n.toNat | _ => Option.none
+      pure (reply (stitchB ms lb ub oc n) optFrameVal)
+  | "slices", [ts, lb, ub, oc] =>
+      let ts ← TS.ofVal (← Val.ofSexp ts)
+      let lb ← bargOf (← Val.ofSexp lb); let ub ← bargOf (← Val.ofSexp ub); let oc ← ocOf (← Val.ofSexp oc)
+      pure (reply (slicesOfSeries ts lb ub oc) slicedVal)
   | "unslice", [f, ub] =>
       let f ← frameOf (← Val.ofSexp f)
       let ub ← (← datesOf (← Val.ofSexp ub))
